@@ -299,7 +299,7 @@ pub fn oracle(a: &Args, out: &Args) -> Option<(&'static str, String)> {
     }
     if a[0].get(5).copied().unwrap_or(0) == 1 {
         if out[1] != vec![1, 1000, 0] {
-            return Some(("C01", format!("a {} stream opened with {} bytes of connection credit left: the peer application read equal={} length={} end={} of the 1000 bytes written", if a[0][1] == 0 { "unidirectional" } else { "bidirectional" }, a[0][3], out[1][0], out[1][1], out[1][2])));
+            return Some(("C01+C08", format!("a {} stream opened with {} bytes of connection credit left: the peer application read equal={} length={} end={} of the 1000 bytes written", if a[0][1] == 0 { "unidirectional" } else { "bidirectional" }, a[0][3], out[1][0], out[1][1], out[1][2])));
         }
         return None;
     }
